@@ -937,7 +937,10 @@ func (e *Engine) convert(v Value, from, to types.Type, pos token.Pos) Value {
 		}
 		if isStringType(tu) {
 			if x.op != OpConst {
-				panic(e.unsupported("symbolic rune to string"))
+				// ASCII assumption for symbolic configuration bytes (DESIGN 2.5)
+				e.doAssume(e.tt.Bin(OpUlt, x, e.tt.Const(x.w, 0x80)), "ascii-rune-to-string")
+				arr := e.tt.Store(e.tt.ArrConst(nil), e.c64(0), e.tt.Extract(x, 7, 0))
+				return &StringV{arr: arr, off: e.c64(0), len: e.c64(1)}
 			}
 			return e.concStr(string(rune(x.lo)))
 		}
